@@ -1,9 +1,9 @@
 SPECIFICATION GSpec
 CONSTANTS
-  Nodes = {"A", "B"}
-  Order <- OrderAB
-  ModsOf <- ModsAB
-  Params = {"value", "sp"}
+  Nodes = {"A"}
+  Order <- OrderA
+  ModsOf <- ModsA
+  Params = {"value", "mode"}
   Values = {1, 2}
   UpErrs = {"hw"}
   Conns = {"c1", "c2"}
